@@ -72,6 +72,15 @@ pub fn run_zoom(a: &Args) -> Result<(), String> {
         if (z.summary.sum - wsum).abs() > 1e-3 * (1.0 + wsum.abs()) {
             return Err(format!("record {}-{} sum={} expected {}", z.start, z.end, z.summary.sum, wsum));
         }
+        // min/max over the stored values that have at least one base inside the record
+        let inside: Vec<f64> = vals.iter().filter(|v| ov(v.0, v.1, z.start, z.end) > 0).map(|v| v.2 as f64).collect();
+        if !inside.is_empty() {
+            let mn = inside.iter().cloned().fold(f64::MAX, f64::min);
+            let mx = inside.iter().cloned().fold(f64::MIN, f64::max);
+            if (z.summary.min_val - mn).abs() > 1e-6 || (z.summary.max_val - mx).abs() > 1e-6 {
+                return Err(format!("record {}-{} min/max={}/{} but the values inside it have {}/{}", z.start, z.end, z.summary.min_val, z.summary.max_val, mn, mx));
+            }
+        }
         total += z.summary.bases_covered;
     }
     let want_total: u64 = vals.iter().map(|v| (v.1 - v.0) as u64).sum();
